@@ -104,7 +104,13 @@ QMulModN(a, b)   == Q("mulmod_n", <<a, b>>)       \* a*b mod n, 32 bytes
 
 (* the passphrase as the key-derivation function sees it: NFC, then UTF-8.   *)
 (* norm = FALSE describes the deviation "no normalisation".                *)
-PassBytes(F, cps, norm) == IF norm THEN Utf8(Val(F, QNfc(cps))) ELSE Utf8(cps)
+(* A passphrase is text (code points: what BIP38 talks about) or, where an API accepts them, raw bytes used as     *)
+(* they are.  Text is never interpreted: a passphrase made of hexadecimal digits, of Base58 characters, with        *)
+(* surrounding blanks ... is that text.                                                                              *)
+Txt(s) == [text |-> TRUE, s |-> s]
+Raw(b) == [text |-> FALSE, s |-> b]
+PassQs(pw) == IF pw.text THEN <<QNfc(pw.s)>> ELSE <<>>
+PassBytes(F, pw, norm) == IF ~pw.text THEN pw.s ELSE IF norm THEN Utf8(Val(F, QNfc(pw.s))) ELSE Utf8(pw.s)
 
 Base58Check(F, payload) ==
     LET q == QSha256d(payload) IN Stage(F, <<q>>, Ok(B58Enc(payload \o SubSeq(Val(F, q), 1, 4))))
@@ -138,13 +144,12 @@ EncryptWithAH(F, priv, comp, ah, pw) ==
       IN Stage(F, <<q1, q2>>,
            Base58Check(F, <<1, 66, FlagNonEC(comp)>> \o ah \o Val(F, q1) \o Val(F, q2))))
 
-EncryptNonEC(F, priv, comp, ver, cps, norm) ==
+EncryptNonEC(F, priv, comp, ver, pw, norm) ==
     IF ~InRange(priv) THEN Fail
-    ELSE LET qn == QNfc(cps)
-             qg == QMulG(priv)
-         IN Stage(F, <<qn, qg>>,
+    ELSE LET qg == QMulG(priv)
+         IN Stage(F, <<qg>> \o PassQs(pw),
               LET ah == AddrHashOfPub(F, Sec(Val(F, qg), comp), ver) IN
-              IF ah.st # "ok" THEN ah ELSE EncryptWithAH(F, priv, comp, ah.val, PassBytes(F, cps, norm)))
+              IF ah.st # "ok" THEN ah ELSE EncryptWithAH(F, priv, comp, ah.val, PassBytes(F, pw, norm)))
 
 \* decryption result
 \* (seed, oe: the generator's entropy and the owner entropy recovered from an EC-multiplied token, else empty)
@@ -195,14 +200,13 @@ PassPoint(F, pf) ==
 
 \* lotseq: <<>> or <<lot, sequence>>; salt: owner salt (8 bytes, or 4 with lot and sequence; a longer salt supplied with
 \* lot and sequence is cut to its first 4 bytes)
-Intermediate(F, cps, lotseq, salt, norm) ==
+Intermediate(F, pw, lotseq, salt, norm) ==
     LET hasLot == lotseq # <<>> IN
     IF hasLot /\ ~(lotseq[1] \in 0..1048575 /\ lotseq[2] \in 0..4095 /\ Len(salt) \in {4, 8}) THEN Fail
     ELSE IF ~hasLot /\ Len(salt) # 8 THEN Fail
     ELSE LET oe == IF hasLot THEN SubSeq(salt, 1, 4) \o LotSeqBytes(lotseq[1], lotseq[2]) ELSE salt
-             qn == QNfc(cps)
-         IN Stage(F, <<qn>>,
-              LET pf == PassFactor(F, PassBytes(F, cps, norm), oe, hasLot) IN
+         IN Stage(F, PassQs(pw),
+              LET pf == PassFactor(F, PassBytes(F, pw, norm), oe, hasLot) IN
               IF pf.st # "ok" THEN pf
               ELSE LET pp == PassPoint(F, pf.val) IN
                    IF pp.st # "ok" THEN pp
@@ -290,17 +294,16 @@ DecryptEC(F, pl, pw, ver) ==
                                           IF hasLot THEN SeqOf(SubSeq(oe, 5, 8)) ELSE 0, seedb, oe))))))
 
 (* ----------------------------- decryption of any token ------------------- *)
-Decrypt(F, tok, cps, ver, norm) ==
+Decrypt(F, tok, pw, ver, norm) ==
     IF ~IsB58(tok) THEN Fail
     ELSE LET raw == B58Dec(tok) IN
     IF Len(raw) # 43 THEN Fail
     ELSE LET pl == SubSeq(raw, 1, 39)
              qc == QSha256d(pl)
-             qn == QNfc(cps)
-    IN Stage(F, <<qc, qn>>,
+    IN Stage(F, <<qc>> \o PassQs(pw),
          IF SubSeq(Val(F, qc), 1, 4) # SubSeq(raw, 40, 43) THEN Fail
-         ELSE IF pl[1] = 1 /\ pl[2] = 66 THEN DecryptNonEC(F, pl, PassBytes(F, cps, norm), ver)
-         ELSE IF pl[1] = 1 /\ pl[2] = 67 THEN DecryptEC(F, pl, PassBytes(F, cps, norm), ver)
+         ELSE IF pl[1] = 1 /\ pl[2] = 66 THEN DecryptNonEC(F, pl, PassBytes(F, pw, norm), ver)
+         ELSE IF pl[1] = 1 /\ pl[2] = 67 THEN DecryptEC(F, pl, PassBytes(F, pw, norm), ver)
          ELSE Fail)
 
 (***************************************************************************)
